@@ -1,10 +1,17 @@
 #!/bin/bash
 # Re-checks every compiled file of the Coq development with coqchk, one module at a time (-norec: each run checks one
-# file against its already compiled dependencies; all files together cover the development), 8 in parallel.
-# Takes hours.  Writes work/coqchk_full.stamp when every module passed.
+# file against its already compiled dependencies; all files together cover the development), several in parallel.
+# Takes hours.  For every module that passes it records the modification time of the .vo it checked in
+# work/coqchk/<module>.ok; modules whose record matches the current .vo are skipped.
 cd "$(dirname "$0")/../coq" || exit 1
-mods=$(grep '^theories/.*\.v$' _CoqProject | sed 's#^theories/##; s#\.v$##; s#/#.#g')
-fail=0
-echo "$mods" | xargs -P 8 -I{} sh -c 'timeout 14000 coqchk -silent -o -Q theories MQ -norec MQ.{} > ../work/coqchk_{}.log 2>&1 || echo FAILED {}' | tee ../work/coqchk_all.log
-grep -q FAILED ../work/coqchk_all.log && fail=1
-if [ $fail = 0 ]; then echo "all modules re-checked by coqchk -norec on $(date -u +%FT%TZ)" > ../work/coqchk_full.stamp; echo coqchk-all-ok; else echo coqchk-all-FAILED; exit 1; fi
+mkdir -p ../work/coqchk
+J=${COQCHK_JOBS:-6}
+one() {
+  m=$1; f=theories/$(echo $m | tr . /).vo
+  [ -f "$f" ] || { echo "MISSING $m"; return; }
+  t=$(stat -c %Y "$f")
+  [ -f ../work/coqchk/$m.ok ] && [ "$(cat ../work/coqchk/$m.ok)" = "$t" ] && { echo "SKIP $m"; return; }
+  if timeout 20000 coqchk -silent -o -Q theories MQ -norec MQ.$m > ../work/coqchk/$m.log 2>&1; then echo $t > ../work/coqchk/$m.ok; echo "OK $m"; else rm -f ../work/coqchk/$m.ok; echo "FAILED $m"; fi
+}
+export -f one
+grep '^theories/.*\.v$' _CoqProject | sed 's#^theories/##; s#\.v$##; s#/#.#g' | xargs -P $J -I{} bash -c 'one {}'
